@@ -1,7 +1,7 @@
 #!/bin/bash
 # evaluate every delivered behaviour-preserving refactoring (wave 3): all registered checks must stay quiet
 cd "$(dirname "$0")/.."
-for d in ${BENIGN_SRC:-/tmp/seed3_out}/C*/[RS]; do
+for d in ${BENIGN_SRC:-/tmp/seed3_out}/C*/[${BENIGN_LETTERS:-RS}]; do
   [ -f "$d/patch.diff" ] && [ -f "$d/meta.json" ] && [ -f "$d/equiv.py" ] || continue
   pid=$(basename $(dirname $d)); x=$(basename $d)
   [ -f "seeded/benign/$pid-$x/meta.json" ] && continue
